@@ -127,6 +127,8 @@ def check(repo: Repo, rep: Report) -> None:
                         "cast(...) and a local single-assignment alias of a parameter are transparent"]
     rep.rule("F1-same-operator", "a fluent method applies the operator of its own name to self", floor=120)
     rep.rule("F2-forwarding", "fluent parameters are forwarded by positional role / name, once, unchanged, same defaults", floor=150)
+    rep.rule("F5-positional-roles", "a fluent method declares the operator's parameters in the operator's positional order", floor=100)
+    rep.rule("F4-no-override", "no Observable subclass re-defines a fluent method (the mixin's forwarding is what every observable gets)", floor=3)
     rep.rule("F3-impl-forwarding", "public operators forward their parameters to their implementation", floor=150)
     opsmod = repo.by_modname.get(OPS)
     rep.require(opsmod is not None, "reactivex.operators module")
@@ -152,6 +154,16 @@ def check(repo: Repo, rep: Report) -> None:
                     continue
                 wsig = signature(f, drop_first=1)
                 apps = find_applications(f, is_ops)
+                # F5: positional roles — a call written positionally means the same thing in both spellings
+                fa = [x.arg for x in f.node.args.args[1:]]
+                oa = [x.arg for x in own.node.args.args]
+                applies_own = any(a_.call is not None and implementation(repo, OPS, dotted(a_.target).split(".", 1)[1]) is own for a_ in apps)
+                if applies_own:
+                    moved = [nm for nm in fa if nm in oa and fa.index(nm) != oa.index(nm)]
+                    okf = len(fa) == len(oa) and not moved and (f.node.args.vararg is None) == (own.node.args.vararg is None)
+                    rep.ob("F5-positional-roles", f, f"{c.name}.{f.name}({', '.join(fa)}) vs ops.{f.name}({', '.join(oa)})", okf,
+                           f"the fluent method takes its positional parameters in a different order / number than ops.{f.name} "
+                           f"({fa} vs {oa}): source.{f.name}(a, b) and source.pipe(ops.{f.name}(a, b)) pass a and b to different roles")
                 rep.ob("F1-same-operator", f, f"{c.name}.{f.name}: returns an operator application", bool(apps),
                        "the method has no return statement")
                 for app in apps:
@@ -183,6 +195,28 @@ def check(repo: Repo, rep: Report) -> None:
                     if timpl is not None:
                         check_forwarding(rep, "F2-forwarding", f, wsig, app, timpl, signature(timpl), f"{c.name}.{f.name}")
     rep.extra["fluent_methods"] = n_methods
+    # F4: subclasses of Observable must not shadow a fluent method — with a method or with an instance attribute
+    fluent_names = set()
+    for rel, m in repo.modules.items():
+        if rel.startswith(MIXDIR) and not rel.endswith("__init__.py"):
+            for c in m.root.children:
+                if c.is_class:
+                    fluent_names |= {f.name for f in c.children if f.is_func and not f.name.startswith("_")}
+    for rel, m in sorted(repo.modules.items()):
+        if not rel.startswith("reactivex/") or rel.startswith(MIXDIR) or rel.startswith("reactivex/testing/"):
+            continue
+        for c in m.root.children:
+            if not c.is_class or c.name == "Observable":
+                continue
+            bases = " ".join(u(b) for b in c.node.bases)
+            if not any(k in bases for k in ("Observable", "Subject")):
+                continue
+            shadow = sorted({f.name for f in c.children if f.is_func and f.name in fluent_names})
+            attrs = sorted({n_.attr for f in c.children if f.is_func for n_ in f.all_nodes() if isinstance(n_, ast.Attribute) and isinstance(n_.ctx, ast.Store)
+                            and isinstance(n_.value, ast.Name) and n_.value.id == "self" and n_.attr in fluent_names})
+            rep.ob("F4-no-override", c, f"{c.name}({bases}): shadows {shadow + attrs or 'no fluent method'}", not shadow and not attrs,
+                   f"{c.name} re-defines {shadow + attrs} (a method or an instance attribute of that name): on these observables source.{(shadow + attrs or ['x'])[0]}(...) "
+                   f"is no longer the mixin's forwarding to ops.{(shadow + attrs or ['x'])[0]} — it differs from the piped form (or is not callable at all)")
     rep.require(n_methods >= 120, f"fluent methods ({n_methods})")
     # level 2: ops.NAME(args) -> _impl.name_(args)
     n_ops = 0
